@@ -6,8 +6,8 @@ import sys
 import time
 
 ROOT = os.path.dirname(os.path.dirname(os.path.abspath(__file__)))
-EVID = os.path.join(ROOT, "evidence")
-CASES = os.path.join(ROOT, "cases")
+EVID = os.environ.get("VERIF_EVIDENCE_DIR") or os.path.join(ROOT, "evidence")
+CASES = os.environ.get("VERIF_CASES_DIR") or os.path.join(ROOT, "cases")
 KNOWN = os.path.join(ROOT, "known_findings.json")
 
 
